@@ -4,13 +4,12 @@ import (
 	"fmt"
 	"go/token"
 	"go/types"
-	"sort"
 	"strings"
 
 	"golang.org/x/tools/go/ssa"
 
 	"lwverif/internal/effects"
-	"lwverif/internal/guards"
+	"lwverif/internal/load"
 )
 
 // Reusable rules on engine E4 for properties other than C10 (C09-R3, C07-R6, C16-R7).
@@ -125,117 +124,136 @@ func ruleNoInputWrite(c *Ctx, rule string, roots []*ssa.Function) {
 func ruleRegistryWriters(c *Ctx, rule string) {
 	r := c.Run
 	info := effectsFor(c.Prog)
-	r.Rule(rule, "the only post-init writer of macPayloadRegistry is RegisterProprietaryMACCommand; it writes registry[uplink][cid] with the caller's direction flag and CID, only after rejecting cid < 128, under macPayloadMutex.Lock")
-	const regName = "lorawan.macPayloadRegistry"
+	r.Rule(rule, "the package-level maps GetMACPayloadAndSize reads (the MAC payload registries) are written after init by RegisterProprietaryMACCommand only (itself or helpers only it calls), and only with macPayloadMutex write-locked; which pair a registration changes is decided by R9 through the accessor")
 	reg := c.Prog.SSAFunc("", "RegisterProprietaryMACCommand")
-	if reg == nil {
-		r.Unknown(rule, "lorawan.RegisterProprietaryMACCommand", "", "anchor function present", "missing")
+	get := c.Prog.SSAFunc("", "GetMACPayloadAndSize")
+	if reg == nil || get == nil {
+		r.Unknown(rule, "lorawan.RegisterProprietaryMACCommand", "", "anchor functions present", "RegisterProprietaryMACCommand or GetMACPayloadAndSize missing")
 		return
 	}
-	sp := c.Prog.SSAPkg("")
-	if sp == nil || sp.Members["macPayloadRegistry"] == nil {
-		r.Unknown(rule, regName, "", "anchor variable present", "missing")
+	// the registries: map-typed package-level variables of the module read from GetMACPayloadAndSize and its callees
+	regs := map[string]bool{}
+	seen := map[*ssa.Function]bool{}
+	var walk func(f *ssa.Function)
+	walk = func(f *ssa.Function) {
+		if seen[f] || info.A.Sums[f] == nil {
+			return
+		}
+		seen[f] = true
+		if fa := info.A.Facts[f]; fa != nil {
+			for _, a := range fa.Accesses {
+				if g := globalByName(c, a.Global); g != nil {
+					if _, isMap := g.Type().(*types.Pointer).Elem().Underlying().(*types.Map); isMap {
+						regs[a.Global] = true
+					}
+				}
+			}
+		}
+		for _, b := range f.Blocks {
+			for _, ins := range b.Instrs {
+				if ci, ok := ins.(ssa.CallInstruction); ok {
+					for _, callee := range info.A.CalleesOf(ci) {
+						walk(callee)
+					}
+				}
+			}
+		}
+	}
+	walk(get)
+	names := sortedStr(regs)
+	if len(names) == 0 {
+		r.Unknown(rule, "registries", c.Prog.Rel(get.Pos()), "GetMACPayloadAndSize reads a package-level map", "none found among its accesses")
 		return
 	}
-	writers := globalWriters(info)[regName]
-	byFn := map[*ssa.Function][]effects.Access{}
-	var fns []*ssa.Function
-	for _, a := range writers {
-		f := a.Instr.Parent()
-		if byFn[f] == nil {
-			fns = append(fns, f)
+	// helpers only RegisterProprietaryMACCommand calls count as part of it
+	cg := c.Prog.CallGraph()
+	regOnly := func(f *ssa.Function) bool {
+		for i := 0; i < 3 && f != reg; i++ {
+			n := cg.Nodes[f]
+			if n == nil || len(n.In) == 0 {
+				return false
+			}
+			var up *ssa.Function
+			for _, e := range n.In {
+				if up != nil && e.Caller.Func != up {
+					return false
+				}
+				up = e.Caller.Func
+			}
+			f = up
 		}
-		byFn[f] = append(byFn[f], a)
+		return f == reg
 	}
-	sort.Slice(fns, func(i, j int) bool { return funcKey(fns[i]) < funcKey(fns[j]) })
-	if len(byFn[reg]) == 0 {
-		r.Unknown(rule, "writers/"+funcKey(reg), c.Prog.Rel(reg.Pos()), "RegisterProprietaryMACCommand writes the registry itself", "no direct map update of macPayloadRegistry found in it (shape not recognised)")
-	}
-	for _, f := range fns {
-		key := "writers/" + funcKey(f)
-		if f == reg {
-			r.OK(rule, key, c.Prog.Rel(f.Pos()), "post-init writer is RegisterProprietaryMACCommand", fmt.Sprintf("%d map update(s)", len(byFn[f])), true)
+	writers := globalWriters(info)
+	locks := map[*ssa.Function]*effects.LockInfo{}
+	for _, name := range names {
+		r.Saw("MAC payload registries (maps read by GetMACPayloadAndSize)", name)
+		ws := writers[name]
+		if len(ws) == 0 {
+			r.Unknown(rule, "writers/"+name, "", "RegisterProprietaryMACCommand updates the registry", "no post-init write found (registration not recognised)")
 			continue
 		}
-		r.Bad(rule, key, c.Prog.Rel(byFn[f][0].Instr.Pos()), "post-init writer is RegisterProprietaryMACCommand", funcKey(f)+" also writes the registry: "+byFn[f][0].Desc)
-	}
-	li := effects.Locks(reg)
-	for _, a := range byFn[reg] {
-		pos := c.Prog.Rel(a.Instr.Pos())
-		mu, ok := a.Instr.(*ssa.MapUpdate)
-		if !ok {
-			r.Unknown(rule, "shape/"+a.Desc, pos, "registry[uplink][cid] = info", "write is not a map update: "+a.Desc)
-			continue
-		}
-		// --- direction: the updated map is registry[<uplink parameter>]
-		lk, ok := mu.Map.(*ssa.Lookup)
-		switch {
-		case !ok:
-			if isLoadOfGlobal(mu.Map, "macPayloadRegistry") {
-				r.Bad(rule, "direction", pos, "only the inner per-direction map is updated", "the outer map registry[…] is assigned: a whole direction (standard CIDs included) is replaced")
+		for i, a := range ws {
+			f := a.Instr.Parent()
+			key := fmt.Sprintf("writers/%s/%s#%d", name, funcKey(f), i)
+			pos := c.Prog.Rel(a.Instr.Pos())
+			if !regOnly(f) {
+				r.Bad(rule, key, pos, "post-init writer is RegisterProprietaryMACCommand", funcKey(f)+" also writes the registry: "+a.Desc)
+				continue
+			}
+			// the lock: held for writing at the update; for a helper, at its only call site chain
+			ins := a.Instr
+			fn := f
+			held := false
+			var state string
+			for depth := 0; depth < 4; depth++ {
+				li := locks[fn]
+				if li == nil {
+					li = effects.Locks(fn)
+					locks[fn] = li
+				}
+				st := li.HeldBefore(ins)["G:macPayloadMutex"]
+				state = st.Held.String()
+				if st.Held == effects.HeldWrite {
+					held = true
+					break
+				}
+				if fn == reg {
+					break
+				}
+				n := cg.Nodes[fn]
+				if n == nil || len(n.In) != 1 || n.In[0].Site == nil {
+					break
+				}
+				ins = n.In[0].Site
+				fn = n.In[0].Caller.Func
+			}
+			if held {
+				r.OK(rule, key, pos, "written by RegisterProprietaryMACCommand under macPayloadMutex.Lock", a.Desc+"; Lock held", true)
 			} else {
-				r.Unknown(rule, "direction", pos, "updated map is registry[uplink]", "updated map is "+mu.Map.String())
+				r.Bad(rule, key, pos, "update under macPayloadMutex.Lock", "macPayloadMutex is "+state+" at the update")
 			}
-		case !isLoadOfGlobal(lk.X, "macPayloadRegistry"):
-			r.Unknown(rule, "direction", pos, "updated map is registry[uplink]", "outer map is not macPayloadRegistry")
-		default:
-			if p := paramThrough(lk.Index); p != nil && isBool(p.Type()) {
-				r.OK(rule, "direction", pos, "outer key is the caller's direction flag", "registry["+p.Name()+"]", true)
-			} else if _, isC := lk.Index.(*ssa.Const); isC {
-				r.Bad(rule, "direction", pos, "outer key is the caller's direction flag", "constant direction "+lk.Index.String()+": registration lands in a fixed direction")
-			} else if u, ok := lk.Index.(*ssa.UnOp); ok && u.Op == token.NOT && paramThrough(u.X) != nil {
-				r.Bad(rule, "direction", pos, "outer key is the caller's direction flag", "negated direction flag")
-			} else {
-				r.Unknown(rule, "direction", pos, "outer key is the caller's direction flag", "outer key "+lk.Index.String())
-			}
-		}
-		// --- CID: inner key is the cid parameter, and cid >= 128 dominates
-		kp := paramThrough(mu.Key)
-		if kp == nil {
-			r.Unknown(rule, "cid-key", pos, "inner key is the cid parameter", "inner key "+mu.Key.String())
-		} else {
-			r.OK(rule, "cid-key", pos, "inner key is the cid parameter", "registry[…]["+kp.Name()+"]", true)
-			lower := false
-			var facts []string
-			for _, f := range guards.Facts(mu.Block()) {
-				L, R, op := f.L, f.R, f.Op
-				if paramThrough(R) == kp && paramThrough(L) != kp {
-					L, R = R, L
-					op = flip(op)
-				}
-				if paramThrough(L) != kp {
-					continue
-				}
-				k, ok := guards.ConstInt(R)
-				if !ok {
-					continue
-				}
-				facts = append(facts, fmt.Sprintf("%s %s %d", kp.Name(), op, k))
-				if (op == token.GEQ && k >= 128) || (op == token.GTR && k >= 127) {
-					lower = true
-				}
-			}
-			if lower {
-				r.OK(rule, "cid-range", pos, "cid >= 128 on every path to the update", "dominating facts: "+strings.Join(facts, ", "), true)
-			} else {
-				got := "no dominating lower bound on " + kp.Name()
-				if len(facts) > 0 {
-					got = "dominating facts only: " + strings.Join(facts, ", ")
-				}
-				r.Bad(rule, "cid-range", pos, "cid >= 128 on every path to the update", got+" (a standard CID could be re-registered with another size)")
-			}
-		}
-		// --- lock
-		st := li.HeldBefore(a.Instr)["G:macPayloadMutex"]
-		if st.Held == effects.HeldWrite {
-			r.OK(rule, "lock", pos, "update under macPayloadMutex.Lock", "Lock held (deferred unlock: "+fmt.Sprint(st.Deferred)+")", true)
-		} else {
-			r.Bad(rule, "lock", pos, "update under macPayloadMutex.Lock", "macPayloadMutex is "+st.Held.String()+" at the update")
 		}
 	}
-	for _, lk := range li.Leaks {
+	for _, lk := range effects.Locks(reg).Leaks {
 		r.Bad(rule, "unlock/"+lk.Mutex, c.Prog.Rel(lk.Return.Pos()), "mutex released on every path", "a return leaves "+lk.Mutex+" locked")
 	}
+}
+
+func globalByName(c *Ctx, name string) *ssa.Global {
+	i := strings.LastIndex(name, ".")
+	if i < 0 {
+		return nil
+	}
+	pkg, v := name[:i], name[i+1:]
+	for _, sp := range c.Prog.SSA.AllPackages() {
+		if sp.Pkg.Name() == pkg || strings.HasSuffix(sp.Pkg.Path(), "/"+pkg) || sp.Pkg.Path() == pkg {
+			if g, ok := sp.Members[v].(*ssa.Global); ok && strings.HasPrefix(sp.Pkg.Path(), load.ModPath) {
+				return g
+			}
+		}
+	}
+	return nil
 }
 
 func isLoadOfGlobal(v ssa.Value, name string) bool {
